@@ -224,8 +224,9 @@ theorem C10_dispatch_exact (s : State) (inv : SInv s) (k : Kind) (n : Name) (hn 
 /-- `dispatch_exact`, per history: after ANY successful registration history on a fresh router, a
     requested name reaches handler `x` iff some registration of that namespace returned this name
     for `x` — the returned names are the names under which, and only under which, the handler runs.
-    Every other non-empty name goes to the last unknown handler set on the root router, or is
-    Not Found. -/
+    Every other non-empty name goes to the last unknown handler of that namespace set through any
+    router of the peer (root or `SubRouter.ToRouter()` of any group), or — if none was ever set —
+    is Not Found. -/
 theorem C10_history_exact (mk : MapperKind) (s0 s : State) (ops : List Op) (rets : List (List Name))
     (h0 : init mk = .ok s0) (h : run s0 ops = .ok (s, rets)) (k : Kind) (n : Name) (hn : n ≠ []) :
     (∀ x, dispatch s k n = .handler x ↔ (n, x) ∈ regPairs k ops rets) ∧
@@ -272,7 +273,7 @@ theorem C10_namespaces_independent (s s' : State) (op : Op) (names : List Name)
       · exact absurd e.symm this
       · subst e; simp
     · refine ⟨by cases k <;> simp [State.tbl, hc, hp], ?_⟩
-      rcases hu k with e | ⟨u, e, _⟩
+      rcases hu k with e | ⟨_, u, e, _⟩
       · exact e
       · subst e; simp [Op.kind?] at hk
   unfold dispatch getRoute
@@ -306,9 +307,16 @@ theorem C10_empty_name (s : State) (k : Kind) :
     dispatch s k [] = .badMessage ∧ (dispatch s k []).invoked = [] ∧ (dispatch s k []).code = 400 := by
   refine ⟨rfl, rfl, rfl⟩
 
-/-- The unknown handler set on the ROOT router is reached by every unregistered non-empty name. -/
-theorem C10_unknown_root_reached (s s' : State) (k : Kind) (u : Hid) (names : List Name)
-    (h : step s (.setUnknown k 0 u) = .ok (s', names)) (n : Name) (hn : n ≠ [])
+/-- `SetUnknownCall`/`SetUnknownPush` is accepted through every router of the peer: the root or the
+    `ToRouter()` of any existing group. -/
+theorem C10_set_unknown_accepted (s : State) (k : Kind) (g : Nat) (u : Hid) (p : Name)
+    (hg : s.groups[g]? = some p) : step s (.setUnknown k g u) = .ok (s.setUnk k u, []) := by
+  simp [step, hg]
+
+/-- An unknown handler set through ANY router of the peer — the root (`g = 0`) or
+    `groups[g].ToRouter()` of any group `g` — is reached by every unregistered non-empty name. -/
+theorem C10_unknown_reached (s s' : State) (k : Kind) (g : Nat) (u : Hid) (names : List Name)
+    (h : step s (.setUnknown k g u) = .ok (s', names)) (n : Name) (hn : n ≠ [])
     (hnin : n ∉ keys (s.tbl k)) : dispatch s' k n = .unknown u := by
   have hu := step_unk h k
   have ht : s'.tbl k = s.tbl k := by
@@ -316,33 +324,64 @@ theorem C10_unknown_root_reached (s s' : State) (k : Kind) (u : Hid) (names : Li
     · simp [opHandlers] at ho
     · cases k <;> simp [State.tbl, hc, hp]
   have he : n.isEmpty = false := by cases n <;> simp_all
-  simp only [unkStep, and_self, if_true] at hu
+  simp only [unkStep, if_true] at hu
   unfold dispatch getRoute
   rw [ht, (find_none_iff n _).mpr hnin, hu]
   simp [he]
 
-/-- FINDING (witness against "an unregistered name reaches the unknown handler if one is set"):
-    `SetUnknownCall` called through `SubRouter.ToRouter()` of a group stores the handler in that
-    group's own slot (`r.subRouter.unknownCall = &h` replaces the shared pointer instead of writing
-    through it), which no lookup reads: the call is accepted, yet an unregistered name is Not Found. -/
-theorem C10_unknown_via_subrouter_witness :
-    ∃ s0 s rets, init .http = .ok s0 ∧
-      run s0 [.subRoute 0 (asc "x"), .setUnknown .call 1 7] = .ok (s, rets) ∧
-      dispatch s .call (asc "/nope") = .notFound := by
-  exact ⟨{ mkind := .http, groups := [asc "/"], call := [], push := [], unkCall := none, unkPush := none },
-    { mkind := .http, groups := [asc "/", asc "/x"], call := [], push := [], unkCall := none, unkPush := none },
-    [[], []], by decide, by decide, by decide⟩
+/-- operations that are not a `SetUnknown*` of namespace `k` leave the slot of `k` alone. -/
+private theorem foldl_unkStep_keep (k : Kind) : ∀ (ops : List Op) (cur : Option Hid),
+    (∀ op ∈ ops, ∀ g u, op ≠ .setUnknown k g u) → ops.foldl (unkStep k) cur = cur
+  | [], _, _ => rfl
+  | op :: ops, cur, hno => by
+    have h1 : unkStep k cur op = cur := by
+      cases op with
+      | setUnknown k' g u =>
+        have : k' ≠ k := fun e => hno _ List.mem_cons_self g u (by rw [e])
+        simp [unkStep, this]
+      | subRoute _ _ => rfl
+      | routeStruct _ _ _ _ => rfl
+      | routeFunc _ _ _ _ => rfl
+    rw [List.foldl_cons, h1]
+    exact foldl_unkStep_keep k ops cur (fun op m => hno op (List.mem_cons_of_mem _ m))
+
+/-- "An unregistered name reaches the unknown handler if one is set", for whole histories (this
+    replaces the former finding `C10_unknown_via_subrouter_witness`, which the corrected
+    `SetUnknownCall`/`SetUnknownPush` make false): after ANY successful registration history on a
+    fresh router that contains a `SetUnknown*` of namespace `k` through ANY router of the peer
+    (group index `g` arbitrary: the root or any `SubRoute(..)...ToRouter()`), with `u` the last
+    one set, every non-empty name that no registration of `k` returned reaches `u` — it is never
+    Not Found and never another handler. -/
+theorem C10_unknown_via_any_router_reached (mk : MapperKind) (s0 s : State) (ops1 ops2 : List Op)
+    (rets : List (List Name)) (k : Kind) (g : Nat) (u : Hid)
+    (h0 : init mk = .ok s0) (h : run s0 (ops1 ++ .setUnknown k g u :: ops2) = .ok (s, rets))
+    (hlast : ∀ op ∈ ops2, ∀ g' u', op ≠ .setUnknown k g' u')
+    (n : Name) (hn : n ≠ [])
+    (hnr : ∀ x, (n, x) ∉ regPairs k (ops1 ++ .setUnknown k g u :: ops2) rets) :
+    dispatch s k n = .unknown u := by
+  have hd := (C10_history_exact mk s0 s _ rets h0 h k n hn).2 hnr
+  rw [List.foldl_append, List.foldl_cons, foldl_unkStep_keep k ops2 _ hlast] at hd
+  simpa [unkStep] using hd
+
+/-- the former minimal failing input (`SubRoute("x").ToRouter().SetUnknownCall(h7)`, then a call of
+    the unregistered `/nope`) now reaches the handler. -/
+example : ∃ s0 s rets, init .http = .ok s0 ∧
+    run s0 [.subRoute 0 (asc "x"), .setUnknown .call 1 7] = .ok (s, rets) ∧
+    dispatch s .call (asc "/nope") = .unknown 7 ∧ dispatch s .push (asc "/nope") = .notFound :=
+  ⟨{ mkind := .http, groups := [asc "/"], call := [], push := [], unkCall := none, unkPush := none },
+   { mkind := .http, groups := [asc "/", asc "/x"], call := [], push := [], unkCall := some 7, unkPush := none },
+   [[], []], by decide, by decide, by decide, by decide⟩
 
 /-! ### non-vacuity: concrete values satisfying the hypotheses above -/
 
 /-- a concrete non-trivial history: a group, a controller with two methods in it, a handler function
-    and a push controller at the root, the unknown call handler on the root. -/
+    and a push controller at the root, the unknown call handler set through the group's `ToRouter()`. -/
 def demoOps : List Op :=
   [.subRoute 0 (asc "v1"),
    .routeStruct .call 1 (asc "Aa") [(asc "Bb", 10), (asc "Cc_Dd", 11)],
    .routeFunc .call 0 (asc "Home") 20,
    .routeStruct .push 0 (asc "AA") [(asc "Bb", 30)],
-   .setUnknown .call 0 99]
+   .setUnknown .call 1 99]
 
 def demoState : State :=
   { mkind := .http, groups := [asc "/", asc "/v1"],
@@ -355,6 +394,16 @@ example : ∃ s0, init .http = .ok s0 ∧
     run s0 demoOps = .ok (demoState,
       [[], [asc "/v1/aa/bb", asc "/v1/aa/cc/dd"], [asc "/home"], [asc "/aa/bb"], []]) :=
   ⟨_, rfl, by decide⟩
+
+/-- hypotheses of `C10_unknown_via_any_router_reached` on it: the history is `ops1 ++ setUnknown .. :: []`
+    with the unknown handler set through group 1, and `/nope` was returned by no registration. -/
+example : demoOps = demoOps.take 4 ++ .setUnknown .call 1 99 :: [] ∧
+    (∀ x, (asc "/nope", x) ∉ regPairs .call demoOps
+      [[], [asc "/v1/aa/bb", asc "/v1/aa/cc/dd"], [asc "/home"], [asc "/aa/bb"], []]) := by
+  refine ⟨by decide, ?_⟩
+  intro x hx
+  simp only [demoOps, regPairs, Op.hids] at hx
+  revert hx; simp [asc]
 
 /-- dispatch on it: registered, cross-namespace, near miss, unknown, push Not Found. -/
 example : dispatch demoState .call (asc "/v1/aa/bb") = .handler 10 ∧
